@@ -683,14 +683,19 @@ pub fn exec(w: &mut World, step: &Step, h: HostileOp) -> Outcome {
                 Ok(e) => e,
                 Err(e) => return o("skipped", format!("cannot sign: {e}")),
             };
-            let parsed = with_mdk!(w.nodes[node].mdk(), m => m.parse_key_package(&ev).map(|_| ()).map_err(|e| e.to_string()));
+            let parsed = with_mdk!(w.nodes[node].mdk(), m => m.parse_key_package(&ev).map(|_| ()).map_err(|e| format!("{e:?} || {e}")));
+            if w.capture_logs {
+                if let Err(e) = &parsed {
+                    w.last_debug = e.clone();
+                }
+            }
             w.probe(if parsed.is_ok() { "hostile_kp_parsed" } else { "hostile_kp_refused" });
             let mut text = format!("damaged key package mode {mode}: parse -> {}", match &parsed { Ok(()) => "ok".to_string(), Err(e) => format!("Err({})", e.chars().take(90).collect::<String>()) });
             let mut failed = parsed.is_err();
             if use_in == 1 && w.is_active_member(node, g) && !w.has_pending_commit(node, g) {
                 if let Some(gid) = w.gid(g) {
                     let r = with_mdk!(w.nodes[node].mdk(), m => {
-                        let r = m.add_members(&gid, std::slice::from_ref(&ev)).map(|_| ()).map_err(|e| e.to_string());
+                        let r = m.add_members(&gid, std::slice::from_ref(&ev)).map(|_| ()).map_err(|e| format!("{e:?} || {e}"));
                         if r.is_ok() {
                             // not part of the run's history: withdraw it at once
                             let _ = m.clear_pending_commit(&gid);
@@ -698,6 +703,12 @@ pub fn exec(w: &mut World, step: &Step, h: HostileOp) -> Outcome {
                         r
                     });
                     w.probe(if r.is_ok() { "hostile_kp_add_accepted" } else { "hostile_kp_add_refused" });
+                    if w.capture_logs {
+                        if let Err(e) = &r {
+                            w.last_debug.push_str(" ## ");
+                            w.last_debug.push_str(e);
+                        }
+                    }
                     text.push_str(&format!("; add_members -> {}", match &r { Ok(()) => "ok (withdrawn)".to_string(), Err(e) => format!("Err({})", e.chars().take(90).collect::<String>()) }));
                     failed = r.is_err();
                 }
